@@ -9,7 +9,11 @@
      U fixed unit    -> stmts(print_unit) | parse_unit(that) | norm_unit | wf_unit | stmts(print_unit(norm_unit)) | parse_unit(that) | stable_unit
                         (fixed = 0/1: the variant of VisitFunction the tree under test implements)
      P stmts         -> parse_unit
-     F cls nm k env*k fsig -> tokens(print_fsig) | parse_fsig | norm_fsig | wf_fsig *)
+     F cls nm k env*k fsig -> tokens(print_fsig) | parse_fsig | norm_fsig | wf_fsig
+     I fixed ntab imps unit -> lines(import_lines rich=0) | lines(rich=1) | wf_imports | parse_text(print_text rich=0) = Some(norm_iunit) 0/1
+                        ntab ::= k (id nch prefix*nch lowlast rank)*k     imps ::= k (M m a | F m n a)*k
+                        lines ::= k (L m a | F m nt (n a)*nt)*k
+     R lines stmts   -> parse_text: NONE | imps "|" unit *)
 open Decl_model
 
 let rec pos_of_int n = if n = 1 then XH else if n land 1 = 1 then XI (pos_of_int (n lsr 1)) else XO (pos_of_int (n lsr 1))
@@ -191,6 +195,38 @@ and out_stmt = function
   | SLine ts -> out "L"; out_list out_token ts
   | SBlank -> out "B"
   | SClass (h, b) -> out "K"; out_list out_token h; out_stmts b
+(* ---- the import block ---- *)
+let read_ntab () =
+  let k = next_int () in
+  let tbl = Hashtbl.create 64 in
+  let _ = times k (fun () ->
+    let i = next_int () in
+    let nch = next_int () in let ch = times nch next_n in
+    let low = next_int () <> 0 in let rank = next_n () in
+    Hashtbl.replace tbl i (ch, low, rank)) in
+  let find i = try Some (Hashtbl.find tbl (int_of_n i)) with Not_found -> None in
+  { nt_chain = (fun i -> match find i with Some (c, _, _) -> c | None -> []);
+    nt_lowlast = (fun i -> match find i with Some (_, l, _) -> l | None -> false);
+    nt_rank = (fun i -> match find i with Some (_, _, r) -> r | None -> n_of_int (1000000 + int_of_n i)) }
+let read_imp () =
+  match next () with
+  | "M" -> let m = next_n () in let a = next_n () in IMod (m, a)
+  | "F" -> let m = next_n () in let n = next_n () in let a = next_n () in IFrom (m, n, a)
+  | w -> failwith ("bad imp " ^ w)
+let read_imps () = let k = next_int () in times k read_imp
+let out_imp = function
+  | IMod (m, a) -> out "M"; out_n m; out_n a
+  | IFrom (m, n, a) -> out "F"; out_n m; out_n n; out_n a
+let out_line = function
+  | LImport (m, a) -> out "L"; out_n m; out_n a
+  | LFrom (m, tg) -> out "F"; out_n m; out_list (fun (n, a) -> out_n n; out_n a) tg
+let read_line () =
+  match next () with
+  | "L" -> let m = next_n () in let a = next_n () in LImport (m, a)
+  | "F" -> let m = next_n () in let k = next_int () in
+           LFrom (m, times k (fun () -> let n = next_n () in let a = next_n () in (n, a)))
+  | w -> failwith ("bad line " ^ w)
+
 let out_unit_opt = function None -> out "NONE" | Some u -> out_unit u
 
 let () =
@@ -222,6 +258,24 @@ let () =
          | "P" ->
            let ss = read_stmts () in
            out_unit_opt (parse_unit ss)
+         | "I" ->
+           let fixed = next_int () <> 0 in
+           let t = read_ntab () in
+           let imps = read_imps () in
+           let u = read_unit () in
+           let iu = { iu_imps = imps; iu_unit = u } in
+           out_list out_line (import_lines t false iu); bar ();
+           out_list out_line (import_lines t true iu); bar ();
+           out_bool (wf_imports iu); bar ();
+           (match parse_text (print_text t fixed false iu) with
+            | None -> out "NONE"
+            | Some iu2 -> out_bool (iu2 = norm_iunit t fixed false iu))
+         | "R" ->
+           let k = next_int () in let ls = times k read_line in
+           let ss = read_stmts () in
+           (match parse_text (ls, ss) with
+            | None -> out "NONE"
+            | Some iu2 -> out_list out_imp iu2.iu_imps; bar (); out_unit iu2.iu_unit)
          | "F" ->
            let cls = read_cls_opt () in
            let nm = next_n () in
